@@ -12,7 +12,7 @@ BIN="$HERE/bin/tarsverif"
 
 build() {
   mkdir -p "$HERE/bin"
-  if [ ! -x "$BIN" ] || [ -n "$(find "$HERE/checker" -newer "$BIN" \( -name '*.go' -o -name go.mod -o -name go.sum -o -name '*.json' \) -print -quit)" ]; then
+  if [ ! -x "$BIN" ] || [ -n "$(find "$HERE/checker" -newer "$BIN" \( -name '*.go' -o -name go.mod -o -name go.sum -o -name '*.json' -o -name '*.txt' \) -print -quit)" ]; then
     ( cd "$HERE/checker" && go build -o "$BIN.tmp.$$" . && mv "$BIN.tmp.$$" "$BIN" ) || { echo "checker build failed"; rm -f "$BIN.tmp.$$"; return 1; }
   fi
 }
